@@ -279,10 +279,13 @@ func wW(w int) expr.Width { return expr.Width(w) }
 func init() {
 	checks["C32"] = eng.Check{
 		Procs:       8,
-		Rule:        "memories (Sparse; Overlay(Bytes, Sparse) with 3 base layouts) storing EVERY union of <=2 runs with endpoints from {0,1,15,16,17,31,32,33,47,48} plus a far run, written with distinct bytes as 1..4-byte stores and then partially overwritten (3 overwrite patterns), also shifted to 0xfff0 and to the top of the address space; the real memory view rendered with 200 granted lines and parsed: one row per aligned 16-byte window touching stored memory in address order, each stored byte's current value, '..' for absent bytes, exactly one ellipsis between non-consecutive rows and none between consecutive ones; the real address command for every stored address +-1 and window edge, issued from EVERY cursor row (data and ellipsis rows): selects the stored address's row, fails (cursor unchanged) outside every row. Non-trivial = layout with stored bytes.",
+		Rule:        "memories (Sparse; Overlay(Bytes, Sparse) with 3 base layouts) storing EVERY union of <=2 runs with endpoints from {0,1,15,16,17,31,32,33,47,48} (thorough: <=3 runs with endpoints from {0,1,2,15,16,17,31,32,33,47,48,63,64}) plus a far run, written with distinct bytes as 1..4-byte stores and then partially overwritten (3 overwrite patterns), also shifted to 0xfff0 and to the top of the address space; the real memory view rendered with 200 granted lines and parsed: one row per aligned 16-byte window touching stored memory in address order, each stored byte's current value, '..' for absent bytes, exactly one ellipsis between non-consecutive rows and none between consecutive ones; the real address command for every stored address +-1 and window edge, issued from EVERY cursor row (data and ellipsis rows): selects the stored address's row, fails (cursor unchanged) outside every row. Non-trivial = layout with stored bytes.",
 		Assumptions: []string{"leading/trailing ellipsis rows and the outcome for an absent byte inside a shown row are not constrained"},
 		Run: func(r *eng.Run) {
 			ends := []int{0, 1, 15, 16, 17, 31, 32, 33, 47, 48}
+			if !r.Quick() {
+				ends = []int{0, 1, 2, 15, 16, 17, 31, 32, 33, 47, 48, 63, 64}
+			}
 			var runs [][2]int
 			for i, b := range ends {
 				for _, e := range ends[i+1:] {
@@ -298,6 +301,22 @@ func init() {
 				for _, b := range runs[i+1:] {
 					if b[0] > a[1] {
 						layouts = append(layouts, [][2]int{a, b})
+					}
+				}
+			}
+			if !r.Quick() {
+				// unions of three runs
+				for i, a := range runs {
+					for j := i + 1; j < len(runs); j++ {
+						b := runs[j]
+						if b[0] <= a[1] {
+							continue
+						}
+						for _, c := range runs[j+1:] {
+							if c[0] > b[1] {
+								layouts = append(layouts, [][2]int{a, b, c})
+							}
+						}
 					}
 				}
 			}
